@@ -1,5 +1,7 @@
 package imagemeta
 
+import "github.com/evanoberholster/imagemeta/exif2"
+
 // C01/exif2 through the public entry points: TIFF skeletons with one fully symbolic IFD entry ("hole"), arbitrary
 // next-IFD pointer, arbitrary value window; partitioned by dispatched tag id and byte order. The *_trunc variants
 // add every truncation point and terminal error of the stream.
@@ -278,14 +280,15 @@ func zzC01_exif_subifds() {
 	zzReached("end")
 }
 
-// MakerNote: IFD0 = {Make "Canon"/"NIKON", ExifTag}, ExifIFD = {MakerNote hole-sized UNDEFINED}, maker-note body arbitrary.
-func zzC01_exif_makernote_N() int { return 4 }
+// MakerNote: IFD0 = {Make "Canon"/"Nikon", ExifTag}, ExifIFD = {MakerNote hole-sized UNDEFINED}, maker-note body arbitrary;
+// through DecodeTiff (buffered reads) and exif2.Parse (reads into the pooled scratch buffer).
+func zzC01_exif_makernote_N() int { return 6 }
 func zzC01_exif_makernote() {
 	p := zzPart()
 	be := p%2 == 1
 	mk := "Canon\x00"
-	if p/2 == 1 {
-		mk = "NIKON\x00"
+	if p/2 >= 1 { // parts 2,3: Nikon through DecodeTiff; parts 4,5: Nikon through exif2.Parse
+		mk = "Nikon\x00"
 	}
 	t := zzNewTiff(8+2+24+4+6+2+12+4+40, be, 8)
 	t.dir(8, 2, 0)
@@ -297,7 +300,32 @@ func zzC01_exif_makernote() {
 	t.ent(44, 0, 0x927c, 7, cnt, 62)
 	t.bytes(62, zzBytes("m", 40))
 	r := zzReaderTrunc(t.b, "t")
-	_, _ = DecodeTiff(r)
+	if p/4 == 0 {
+		_, _ = DecodeTiff(r)
+	} else {
+		_, _ = exif2.Parse(r)
+	}
+	zzReached("end")
+}
+
+// a directory with n out-of-line values (n around the capacity of the pending-tag buffer, 84): ids arbitrary per entry
+// class, offsets ascending, every truncation
+func zzC01_exif_fulldir_N() int { return 12 }
+func zzC01_exif_fulldir() {
+	n := []int{82, 83, 84, 85, 100, 128}[zzPart()/2]
+	be := zzPart()%2 == 1
+	vo := 8 + 2 + 12*n + 4
+	t := zzNewTiff(vo+8*n+8, be, 8)
+	t.dir(8, n, 0)
+	typ := zzU16("typ")
+	zzAssume(typ == 2 || typ == 7 || typ == 5)
+	typ = uint16(zzConc(uint64(typ), 3))
+	for i := 0; i < n; i++ {
+		t.ent(8, i, 0x9000+uint16(i), typ, 8/uint32(map[uint16]int{2: 1, 7: 1, 5: 8}[typ]), uint32(vo+8*i))
+		t.bytes(vo+8*i, []byte("abcdefg\x00"))
+	}
+	t.bytes(vo, zzBytes("v", 16))
+	_, _ = DecodeTiff(zzReaderOf(t.b))
 	zzReached("end")
 }
 
